@@ -47,35 +47,40 @@ def attrMatches (o : Oracle) (strict : Bool) (resAttrs : PyVal) (k : String) (v 
      if strict then pyEq rv v
      else o.pyStr rv == o.pyStr v)
 
+/-- the `# type check` block -/
+def typeOk (o : Oracle) (strict : Bool) (rType resType : PyVal) : Bool :=
+  rType.isNone ||
+  (let allowed := allowedTypes rType
+   (allowed.map o.pyStr).contains "*" ||
+   (if strict then
+      resType.isStr && allowed.all PyVal.isStr && allowed.any (fun x => pyEq x resType)
+    else
+      !resType.isNone && (allowed.map o.pyStr).contains (o.pyStr resType)))
+
+/-- the `# id check` block -/
+def idOk (o : Oracle) (strict : Bool) (rId resId : PyVal) : Bool :=
+  rId.isNone ||
+  (if strict then !resId.isNone && pyEq resId rId
+   else !resId.isNone && o.pyStr resId == o.pyStr rId)
+
+/-- the `# attributes` block -/
+def attrsOk (o : Oracle) (strict : Bool) (rAttrs resAttrs : PyVal) : Bool :=
+  match rAttrs with
+  | .dict kvs => resAttrs.isDict && kvs.all (fun kv => attrMatches o strict resAttrs kv.1 kv.2)
+  | _ => true
+
+/-- the strictness the matcher works with: the flag `evaluate` passes, or the legacy in-resource flag -/
+def effectiveStrict (strictEnv : Bool) (res : PyVal) : Bool := strictEnv || (res.get "__strict_types__").truthy
+
 /-- `match_resource(rdef, resource, strict=…)`; `strictEnv` is the flag `evaluate` passes. -/
 def matchResource (o : Oracle) (strictEnv : Bool) (rdef res : PyVal) : Bool :=
   match rdef with
   | .dict [] => true
   | .dict _ =>
-    let rType := rdef.get "type"
-    let rId := rdef.get "id"
-    let rAttrs := attrsOf rdef
-    let resType := res.get "type"
-    let resId := res.get "id"
-    let resAttrs := attrsOf res
-    let strict := strictEnv || (res.get "__strict_types__").truthy
-    let typeOk :=
-      rType.isNone ||
-      (let allowed := allowedTypes rType
-       (allowed.map o.pyStr).contains "*" ||
-       (if strict then
-          resType.isStr && allowed.all PyVal.isStr && allowed.any (fun x => pyEq x resType)
-        else
-          !resType.isNone && (allowed.map o.pyStr).contains (o.pyStr resType)))
-    let idOk :=
-      rId.isNone ||
-      (if strict then !resId.isNone && pyEq resId rId
-       else !resId.isNone && o.pyStr resId == o.pyStr rId)
-    let attrsOk :=
-      match rAttrs with
-      | .dict kvs => resAttrs.isDict && kvs.all (fun kv => attrMatches o strict resAttrs kv.1 kv.2)
-      | _ => true
-    typeOk && idOk && attrsOk
+    let strict := effectiveStrict strictEnv res
+    typeOk o strict (rdef.get "type") (res.get "type") &&
+    idOk o strict (rdef.get "id") (res.get "id") &&
+    attrsOk o strict (attrsOf rdef) (attrsOf res)
   | _ => false
 
 end Rbacx
